@@ -7,18 +7,29 @@ pub struct ValueH { pub g: Ghost<int> }
 #[derive(Clone, Copy)] pub struct StmtH { pub id: Ghost<int> }
 pub struct BlockH { pub stmts: Vec<StmtH> }
 pub struct RtErr { pub g: Ghost<int> }
+#[verifier::external_body] fn null_value() -> (r: ValueH) { unimplemented!() }
 '''
 
 MODEL = r'''
 // Ghost record of one block execution: the scope-stack depth, and which statements were executed
-pub struct Rt { pub depth: Ghost<nat>, pub executed: Ghost<Set<int>>, pub hoisted: Ghost<bool> }
+pub struct Rt { pub depth: Ghost<nat>, pub executed: Ghost<Set<int>>, pub hoisted: Ghost<bool>, pub frame_resets: Ghost<nat> }
+pub struct FuncDef { pub body: BlockH }
 impl Rt {
+    // running a function body: by the resolver's rule (comot/next cannot leave a function: K:resolver:check_function_body__contract,
+    // K:resolver:control_flow_statements__leaf_rules) its flow is never Break / LoopContinue
+    #[verifier::external_body]
+    pub fn exec_function_body(&mut self, b: &BlockH) -> (r: Result<ExecFlow, RtErr>)
+        ensures final(self).depth@ == old(self).depth@, final(self).frame_resets@ == old(self).frame_resets@, r is Ok ==> (r->Ok_0 is Continue || r->Ok_0 is Return)
+    { unimplemented!() }
+    // relocate_return_value: resets the frame to the mark (unit residence)
+    #[verifier::external_body]
+    pub fn relocate_return_value(&mut self, v: ValueH, offset: usize) -> (r: ValueH) ensures final(self).depth@ == old(self).depth@, final(self).frame_resets@ == old(self).frame_resets@ + 1 { unimplemented!() }
     pub uninterp spec fn pruned(&self, s: int) -> bool;                 // the optimisation plan says this statement is removable
     #[verifier::external_body]
     pub fn push_scope(&mut self) ensures final(self).depth@ == old(self).depth@ + 1, final(self).executed@ == old(self).executed@, final(self).hoisted@ == old(self).hoisted@,
         forall|s: int| final(self).pruned(s) == old(self).pruned(s) { unimplemented!() }
     #[verifier::external_body]
-    pub fn pop_scope(&mut self) requires old(self).depth@ > 0 ensures final(self).depth@ == old(self).depth@ - 1, final(self).executed@ == old(self).executed@, final(self).hoisted@ == old(self).hoisted@,
+    pub fn pop_scope(&mut self) requires old(self).depth@ > 0 ensures final(self).depth@ == old(self).depth@ - 1, final(self).frame_resets@ == old(self).frame_resets@, final(self).executed@ == old(self).executed@, final(self).hoisted@ == old(self).hoisted@,
         forall|s: int| final(self).pruned(s) == old(self).pruned(s) { unimplemented!() }
     // functions of the block are visible before its first statement runs
     #[verifier::external_body]
@@ -69,5 +80,19 @@ UNIT = VUnit(
                      # Verus for-loops have no `continue`: `if C { continue; } REST` (REST = the rest of the loop body) == `if !C { REST }`
                      Rw("R10", r"if me\.stmt_is_pruned\(stmt\) \{\s*continue;\s*\}\s*(match me\.exec_stmt\(stmt\)\? \{.*?\n            \})", r"if !me.stmt_is_pruned(stmt) { \1 }", min_matches=1)],
            vacuity="-", real_name="Runtime::exec_block_with_flow"),
+        # the tail of a user-function call: the parameter scope is closed whatever the body did (success or error), a body that completes
+        # without `return` yields null, and when a frame mark was taken at call entry the frame is reset to it exactly once, through
+        # relocate_return_value (which is what keeps the returned value alive across that reset)
+        Block("call_epilogue", within="eval_function_call", impl="impl Runtime", arm=True,
+              anchor=r"param_scope\.push\(LocalSlot \{ id: maybe_local, name: param, value: arg \}\);\s*\}",
+              sig="fn call_epilogue(me: &mut Rt, func_def: &FuncDef, frame_offset: Option<usize>) -> (res: Result<ValueH, RtErr>)",
+              requires=["old(me).depth@ > 0"],
+              ensures=["final(me).depth@ == old(me).depth@ - 1",
+                       "res is Ok ==> final(me).frame_resets@ == old(me).frame_resets@ + (if frame_offset is Some { 1int } else { 0int })"],
+              rewrites=[Rw("R9", r"self\.exec_block_with_flow\(func_def\.body\)", "me.exec_function_body(&func_def.body)", min_matches=1),
+                        Rw("R8", r"self\.pop_scope\(\)", "me.pop_scope()", min_matches=1),
+                        Rw("R8", r"Value::Null", "null_value()", min_matches=1),
+                        Rw("R9", r"self\.relocate_return_value\(", "me.relocate_return_value(", min_matches=1)],
+              real_name="Runtime::eval_function_call (after argument binding: body, scope, return value)"),
     ],
 )
